@@ -5,7 +5,7 @@ import itertools
 import sys
 from collections import defaultdict
 
-sys.path.insert(0, "/repo")
+sys.path.insert(0, __import__("os").environ.get("PVC_REPO", "/repo"))
 import ptera.interpret as pi  # noqa: E402
 from ptera.utils import ABSENT  # noqa: E402
 from ptera.transform import PteraNameError  # noqa: E402
